@@ -404,6 +404,7 @@ func execC07(plan *simkit.Plan, run *simkit.Run) {
 		s := decode(raw)
 		sleepMs(s.DelayMs)
 		run.Step()
+		run.AbandonIfWallOver()
 		switch s.Op {
 		case "walk":
 			walk(s.N)
